@@ -333,15 +333,41 @@ def bounded_sweep(tkey):
     for o in t.options:
         if o.min is None or o.max is None:
             continue
-        for v in range(-2, 259):
-            n += 1
+        import rv.api as rv
+
+        def by_attr(v):
             m = cls()
             setattr(m, o.name, v)
-            got = getattr(m, o.name)
-            want = max(o.min, min(o.max, v))
-            if got != want:
-                vs.append(C.viol("not-clamped", {"type": tkey, "option": o.name, "side": "low" if v < o.min else "high" if v > o.max else "in"},
-                                 {"assigned": v, "read": got, "expected": want}, {"bounded": tkey}))
+            return m
+
+        def by_ctor(v):
+            return cls(**{o.name: v})
+
+        def by_new_module(v):
+            return rv.Project().new_module(cls, **{o.name: v})
+
+        def on_loaded(v):
+            m = cls().clone()
+            setattr(m, o.name, v)
+            return m
+
+        for path, make in (("attribute", by_attr), ("constructor", by_ctor), ("new_module", by_new_module), ("loaded", on_loaded)):
+            for v in range(-2, 259):
+                n += 1
+                try:
+                    m = make(v)
+                except Exception as e:
+                    vs.append(C.viol("bounded-option-rejected", {"type": tkey, "option": o.name, "path": path, "exc": type(e).__name__},
+                                     {"assigned": v}, {"bounded": tkey}))
+                    break
+                got = getattr(m, o.name)
+                want = max(o.min, min(o.max, v))
+                stored = getattr(C.load_bytes(C.save(rv.Synth(m))).module, o.name) if v in (-2, -1, o.min, o.max, o.max + 1, 200, 255, 258) else want
+                if got != want or stored != want:
+                    vs.append(C.viol("not-clamped", {"type": tkey, "option": o.name, "path": path,
+                                                     "side": "low" if v < o.min else "high" if v > o.max else "in"},
+                                     {"assigned": v, "read": got, "after_save_load": stored, "expected": want}, {"bounded": tkey}))
+                    break
     return n, vs
 
 
